@@ -18,7 +18,7 @@ function, method (with receiver kind), package variable and constant, its numeri
 package variables it reads and its writes through parameters or the receiver (including in-place
 `sort.*`/`copy`/`append`). The entries behind the digest are in `shape_expected.txt` and in a
 comment of the generated file. -/
-def stateC07 : List (String × String) := [("globals:stats", "ErrMismatchedSamples ErrSampleSize ErrSamplesEqual ErrZeroVariance MannWhitneyExactLimit MannWhitneyTiesExactLimit StdNormal _KDEBoundaryMethod_index _KDEKernel_index _LocationHypothesis_index inf nan quantileCIApproxThreshold"), ("globals:mathx", "nan smallFact"), ("globalwrites:stats", "MannWhitneyUTest:StdNormal.CDF"), ("globalwrites:mathx", ""), ("shape:C07", "n=66 fnv64a=8a412eb69f88a2a2")]
+def stateC07 : List (String × String) := [("globals:stats", "ErrMismatchedSamples ErrSampleSize ErrSamplesEqual ErrZeroVariance MannWhitneyExactLimit MannWhitneyTiesExactLimit StdNormal _KDEBoundaryMethod_index _KDEKernel_index _LocationHypothesis_index inf nan quantileCIApproxThreshold"), ("globals:mathx", "nan smallFact"), ("globalwrites:stats", "MannWhitneyUTest:StdNormal.CDF"), ("globalwrites:mathx", ""), ("shape:C07", "n=66 fnv64a=6986ceb111ba0bed")]
 
 /-- the source has exactly the package-level variables, writers and struct fields the model accounts for -/
 theorem state_C07 : holdsAll stateC07 = true := by decide +kernel
